@@ -32,7 +32,10 @@ QueryCalls == {
     "fix_list_of_mods", "create_annotation", "parse_text",
     "t_parse_chem_formula", "t_chem_mass", "t_mod_comp", "t_mod_mass_avg_rounded", "t_mod_mass_avg", "t_mod_mass_psi",
     "t_comp_labelled_formula", "t_comp_formula", "t_mass_formula", "t_apply_isotope_mods", "t_glycan_comp",
-    "t_mass_names", "t_fragment_text", "t_digest_text", "t_add_mods_text", "t_get_mods_text"
+    "t_mass_names", "t_fragment_text", "t_digest_text", "t_add_mods_text", "t_get_mods_text",
+    "create_annotation_intervals", "apply_variable_mods_zero", "fragment_objects", "fragmenter_object",
+    "mass_isotope_mods_arg", "comp_isotope_mods_arg", "mz_isotope_mods_arg", "digest_enzyme_names", "digest_config_names",
+    "sequential_digest_configs", "fragment_b_avg_mass", "fragment_y_mono_mass"
 }
 EditorCalls == {
     "pop_labile_mods", "pop_nterm_mods", "pop_charge", "add_nterm_mods_append",
